@@ -4,25 +4,24 @@ namespace Mpire.Proofs.History
 open Mpire.History
 
 /-- the inductive invariant of the control state -/
-def I (s : Ctl) : Prop :=
-  (s.mapRunning = false → (s.keepOrder = false ∧ s.taskIdx = 0 ∧ s.lastCompleted = [])) ∧
-  (s.workers.isSome = true → s.excFlag = false)
+def I (s : Ctl) : Prop := s.mapRunning = false → s.keepOrder = false
 
 theorem I_init : I {} := by simp [I]
+
+/-- the condition under which the prologue keeps the running workers -/
+def Reuses (s : Ctl) : Prop := s.workers.isSome = true ∧ s.initialized = true ∧ s.excFlag = false
 
 /-- what a prologue that is let through yields -/
 theorem callStart_some (s : Ctl) (ordered : Bool) (p : ParamsId) (s1 : Ctl) (h : callStart s ordered p = some s1) :
     s.mapRunning = false ∧ s1.mapRunning = true ∧ s1.workers = some p ∧ s1.initialized = true ∧
     s1.keepAlive = s.keepAlive ∧
     s1.keepOrder = (ordered || s.keepOrder) ∧
-    ((s.workers.isSome = true ∧ s.initialized = true) →
-      (s1.generation = s.generation ∧ s1.excFlag = s.excFlag ∧ s1.taskIdx = s.taskIdx ∧
-        s1.lastCompleted = s.lastCompleted)) ∧
-    (¬ (s.workers.isSome = true ∧ s.initialized = true) →
-      (s1.generation = s.generation + 1 ∧ s1.excFlag = false ∧ s1.taskIdx = 0 ∧ s1.lastCompleted = [])) := by
+    s1.excFlag = false ∧ s1.taskIdx = 0 ∧ s1.lastCompleted = [] ∧
+    (Reuses s → s1.generation = s.generation) ∧
+    (¬ Reuses s → s1.generation = s.generation + 1) := by
   obtain ⟨ka, w, g, ini, mr, ko, ef, ti, lc⟩ := s
-  cases ordered <;> cases mr <;> cases w <;> cases ini <;>
-    simp [callStart, startWorkers] at h ⊢ <;> subst h <;> simp
+  cases ordered <;> cases mr <;> cases w <;> cases ini <;> cases ef <;>
+    simp [callStart, cleanupFailed, terminate, startWorkers, Reuses] at h ⊢ <;> subst h <;> simp
 
 theorem callStart_none (s : Ctl) (ordered : Bool) (p : ParamsId) (h : callStart s ordered p = none) :
     s.mapRunning = true := by
@@ -44,6 +43,20 @@ theorem terminate_fields (s : Ctl) : (terminate s).mapRunning = s.mapRunning ∧
     (terminate s).initialized = s.initialized := by
   unfold terminate; split <;> simp
 
+theorem cleanupFailed_fields (s : Ctl) : (cleanupFailed s).mapRunning = s.mapRunning ∧ (cleanupFailed s).keepOrder = s.keepOrder ∧
+    (cleanupFailed s).keepAlive = s.keepAlive := by
+  unfold cleanupFailed; split
+  · have := terminate_fields s; exact ⟨this.1, this.2.1, this.2.2.2.2.2.1⟩
+  · simp
+
+/-- an apply batch leaves the running flag, the order mode and the keep-alive setting alone -/
+theorem apply_fields (s : Ctl) (p : ParamsId) (o : ApplyOutcome) :
+    (step s (.apply p o)).mapRunning = s.mapRunning ∧ (step s (.apply p o)).keepOrder = s.keepOrder ∧
+    (step s (.apply p o)).keepAlive = s.keepAlive := by
+  have hc := cleanupFailed_fields s
+  simp only [step]
+  cases hw : (cleanupFailed s).workers <;> cases o <;> simp [dispatchEffects, startWorkers, hc.1, hc.2.1, hc.2.2]
+
 theorem I_step (s : Ctl) (op : Op) (h : I s) : I (step s op) := by
   cases op with
   | setKeepAlive b => exact h
@@ -51,35 +64,31 @@ theorem I_step (s : Ctl) (op : Op) (h : I s) : I (step s op) := by
   | stopAndJoin ka =>
     simp only [step]
     split
-    · exact ⟨h.1, by simp⟩
-    · exact h
+    · simp [I]
+    · split
+      · exact h
+      · exact h
   | terminate =>
     simp only [step]
     have := terminate_fields s
-    refine ⟨?_, by simp [terminate_workers]⟩
-    rw [this.1, this.2.1, this.2.2.1, this.2.2.2.1]; exact h.1
+    unfold I; rw [this.1, this.2.1]; exact h
+  | apply p o =>
+    have := apply_fields s p o
+    unfold I; rw [this.1, this.2.1]; exact h
   | call ordered p o =>
     simp only [step]
-    cases hc : callStart s ordered p with
-    | none => simp [I, callFinally, terminate_workers]
-    | some s1 =>
-      have hs := callStart_some s ordered p s1 hc
-      cases o with
-      | ok d c =>
-        dsimp only
-        split <;> simp [I, callFinally, dispatchEffects]
-        intro _
-        by_cases hw : s.workers.isSome = true ∧ s.initialized = true
-        · rw [(hs.2.2.2.2.2.2.1 hw).2.1]; exact h.2 hw.1
-        · exact (hs.2.2.2.2.2.2.2 hw).2.1
-      | fails d c => simp [I, callFinally, terminate_workers]
-      | closedEarly d c => simp [I, callFinally, terminate_workers]
-      | leftOpen d c =>
-        simp only [I, dispatchEffects, hs.2.1]
-        refine ⟨by simp, fun _ => ?_⟩
-        by_cases hw : s.workers.isSome = true ∧ s.initialized = true
-        · rw [(hs.2.2.2.2.2.2.1 hw).2.1]; exact h.2 hw.1
-        · exact (hs.2.2.2.2.2.2.2 hw).2.1
+    split
+    · simp [I]
+    · cases hc : callStart s ordered p with
+      | none => simp [I, callFinally]
+      | some s1 =>
+        have hs := callStart_some s ordered p s1 hc
+        cases o with
+        | rejected => simp_all
+        | ok d c => dsimp only; split <;> simp [I, callFinally, dispatchEffects]
+        | fails d c => simp [I, callFinally]
+        | closedEarly d c => simp [I, callFinally]
+        | leftOpen d c => simp [I, dispatchEffects, hs.2.1]
 
 theorem I_foldl (ops : List Op) (s : Ctl) (h : I s) : I (ops.foldl step s) := by
   induction ops generalizing s with
@@ -96,43 +105,39 @@ theorem fresh_at_call_start (ops : List Op) (ordered : Bool) (p : ParamsId) (s1 
   have hI := I_run ops
   generalize runOps {} ops = s at h hI
   have hs := callStart_some s ordered p s1 h
-  obtain ⟨hm, hm1, hw1, hi1, _, hko, hA, hB⟩ := hs
-  have hI1 := hI.1 hm
-  refine ⟨?_, ?_, ?_, ?_, hw1, hi1, hm1⟩
-  · by_cases hw : s.workers.isSome = true ∧ s.initialized = true
-    · rw [(hA hw).2.1]; exact hI.2 hw.1
-    · exact (hB hw).2.1
-  · rw [hko, hI1.1]; simp
-  · by_cases hw : s.workers.isSome = true ∧ s.initialized = true
-    · rw [(hA hw).2.2.1]; exact hI1.2.1
-    · exact (hB hw).2.2.1
-  · by_cases hw : s.workers.isSome = true ∧ s.initialized = true
-    · rw [(hA hw).2.2.2]; exact hI1.2.2
-    · exact (hB hw).2.2.2
+  obtain ⟨hm, hm1, hw1, hi1, _, hko, hex, hti, hlc, _, _⟩ := hs
+  refine ⟨hex, ?_, hti, hlc, hw1, hi1, hm1⟩
+  rw [hko, hI hm]; simp
 
 theorem rejected_only_while_open (ops : List Op) (ordered : Bool) (p : ParamsId)
     (h : callStart (runOps {} ops) ordered p = none) : (runOps {} ops).mapRunning = true :=
   callStart_none _ ordered p h
 
 theorem closed_or_finished_is_not_running (ops : List Op) (ordered : Bool) (p : ParamsId) (o : Outcome)
-    (ho : ∀ d c, o ≠ .leftOpen d c) : (runOps {} (ops ++ [.call ordered p o])).mapRunning = false := by
+    (ho : ∀ d c, o ≠ .leftOpen d c) (hr : o ≠ .rejected) : (runOps {} (ops ++ [.call ordered p o])).mapRunning = false := by
   rw [runOps_snoc]
   generalize runOps {} ops = s
-  simp only [step]
+  simp only [step, hr, if_false]
   cases hc : callStart s ordered p with
   | none => simp [callFinally]
   | some s1 =>
     cases o with
+    | rejected => exact absurd rfl hr
     | ok d c => simp [callFinally]
     | fails d c => simp [callFinally]
     | closedEarly d c => simp [callFinally]
     | leftOpen d c => exact absurd rfl (ho d c)
 
+/-- a call that is rejected while its arguments are validated changes nothing but (withdrawing) the order mode -/
+theorem rejected_changes_nothing (s : Ctl) (ordered : Bool) (p : ParamsId) :
+    step s (.call ordered p .rejected) = { s with keepOrder := false } := by
+  simp [step]
+
 /-- the state after a failed call -/
 theorem after_fails (s : Ctl) (ordered : Bool) (p : ParamsId) (d : Nat) (c : List Nat) :
     (step s (.call ordered p (.fails d c))).workers = none ∧
     (step s (.call ordered p (.fails d c))).mapRunning = false := by
-  simp only [step]
+  simp only [step, reduceCtorEq, if_false]
   cases hc : callStart s ordered p <;> simp [callFinally, terminate_workers]
 
 theorem failure_drops_workers (ops : List Op) (ordered : Bool) (p : ParamsId) (d : Nat) (c : List Nat) :
@@ -141,7 +146,7 @@ theorem failure_drops_workers (ops : List Op) (ordered : Bool) (p : ParamsId) (d
   rw [runOps_snoc, runOps_snoc]
   generalize runOps {} ops = s
   refine ⟨(after_fails s ordered p d c).1, ?_⟩
-  simp only [step]
+  simp only [step, reduceCtorEq, if_false]
   cases hc : callStart s ordered p <;> simp [callFinally, terminate_workers]
 
 theorem next_call_after_failure_starts_workers (ops : List Op) (o1 o2 : Bool) (p q : ParamsId) (d : Nat) (c : List Nat)
@@ -151,7 +156,19 @@ theorem next_call_after_failure_starts_workers (ops : List Op) (o1 o2 : Bool) (p
   generalize runOps {} ops = s at h ⊢
   have hf := after_fails s o1 p d c
   have hs := callStart_some _ o2 q s1 h
-  exact (hs.2.2.2.2.2.2.2 (by simp [hf.1])).1
+  exact hs.2.2.2.2.2.2.2.2.2.2 (by simp [Reuses, hf.1])
+
+/-- after an apply batch that flagged the pool as failed (worker_init / worker_exit error) the next call does not reuse
+the stopped workers: it starts fresh ones, with the exception flag clear -/
+theorem next_call_after_failed_apply_starts_workers (ops : List Op) (o2 : Bool) (p q : ParamsId) (d : Nat) (c : List Nat)
+    (s1 : Ctl) (h : callStart (runOps {} (ops ++ [.apply p (.poolFailed d c)])) o2 q = some s1) :
+    s1.generation = (runOps {} (ops ++ [.apply p (.poolFailed d c)])).generation + 1 ∧ s1.excFlag = false := by
+  rw [runOps_snoc] at h ⊢
+  generalize runOps {} ops = s at h ⊢
+  have hs := callStart_some _ o2 q s1 h
+  refine ⟨hs.2.2.2.2.2.2.2.2.2.2 ?_, hs.2.2.2.2.2.2.1⟩
+  simp only [Reuses, step]
+  cases hw : (cleanupFailed s).workers <;> simp [dispatchEffects, startWorkers]
 
 theorem keep_alive_reuses_workers (ops : List Op) (o1 o2 : Bool) (p q : ParamsId) (d : Nat) (c : List Nat) (s1 : Ctl)
     (hk : (runOps {} ops).keepAlive = true) (hm : (runOps {} ops).mapRunning = false)
@@ -162,8 +179,8 @@ theorem keep_alive_reuses_workers (ops : List Op) (o1 o2 : Bool) (p q : ParamsId
   obtain ⟨s0, hc⟩ := callStart_isSome s o1 p hm
   have hs0 := callStart_some s o1 p s0 hc
   have hs := callStart_some _ o2 q s1 h
-  refine ⟨(hs.2.2.2.2.2.2.1 ?_).1, hs.2.2.1⟩
-  simp [step, hc, dispatchEffects, callFinally, hs0.2.2.2.2.1, hk, hs0.2.2.1, hs0.2.2.2.1]
+  refine ⟨hs.2.2.2.2.2.2.2.2.2.1 ?_, hs.2.2.1⟩
+  simp [Reuses, step, hc, dispatchEffects, callFinally, hs0.2.2.2.2.1, hk, hs0.2.2.1, hs0.2.2.2.1, hs0.2.2.2.2.2.2.1]
 
 theorem no_keep_alive_fresh_workers (ops : List Op) (o1 o2 : Bool) (p q : ParamsId) (d : Nat) (c : List Nat) (s1 : Ctl)
     (hk : (runOps {} ops).keepAlive = false) (hm : (runOps {} ops).mapRunning = false)
@@ -174,8 +191,8 @@ theorem no_keep_alive_fresh_workers (ops : List Op) (o1 o2 : Bool) (p q : Params
   obtain ⟨s0, hc⟩ := callStart_isSome s o1 p hm
   have hs0 := callStart_some s o1 p s0 hc
   have hs := callStart_some _ o2 q s1 h
-  refine (hs.2.2.2.2.2.2.2 ?_).1
-  simp [step, hc, dispatchEffects, callFinally, hs0.2.2.2.2.1, hk]
+  refine hs.2.2.2.2.2.2.2.2.2.2 ?_
+  simp [Reuses, step, hc, dispatchEffects, callFinally, hs0.2.2.2.2.1, hk]
 
 theorem setters_force_restart (ops : List Op) (o : Bool) (q : ParamsId) (s1 : Ctl)
     (h : callStart (runOps {} (ops ++ [.setPoolParam true])) o q = some s1) :
@@ -183,7 +200,7 @@ theorem setters_force_restart (ops : List Op) (o : Bool) (q : ParamsId) (s1 : Ct
   rw [runOps_snoc] at h ⊢
   generalize runOps {} ops = s at h ⊢
   have hs := callStart_some _ o q s1 h
-  refine (hs.2.2.2.2.2.2.2 ?_).1
-  simp [step]
+  refine hs.2.2.2.2.2.2.2.2.2.2 ?_
+  simp [Reuses, step]
 
 end Mpire.Proofs.History
